@@ -106,11 +106,17 @@ Definition setdcs_expected : list string :=
 (* (outside a session the buffer follows the container size; inside one it is never lowered: a worker may be waiting for a
    chunk of the previous size — UncompressedFile::read raises the buffer by itself for a larger chunk, C15_read_grows_buffer) *)
 
-(* ---- worker 2 (write) asks for exactly one container and drops what it consumed ---- *)
+(* ---- worker 2 (write) asks for exactly one container and drops what it consumed ----
+   The container size is read ONCE (repo fix: the application may change it at any moment — sizing the destination with one
+   value and requesting another wrote past the end of the destination): one statement of the function mentions
+   defaultLogContainerSize, and both the resize and the request use the local copy *)
 Definition w2_step_ok (l : list string) : bool :=
-  has "m_uncompressedFile . read ( reinterpret_cast < char * > ( logContainer . uncompressedFile . data ( ) ) , m_uncompressedFile . defaultLogContainerSize ( ) )" l &&
-  before "logContainer . uncompressedFile . resize ( m_uncompressedFile . defaultLogContainerSize ( ) )"
-         "m_uncompressedFile . read ( reinterpret_cast < char * > ( logContainer . uncompressedFile . data ( ) ) , m_uncompressedFile . defaultLogContainerSize ( ) )" l &&
+  has "const uint32_t logContainerSize = m_uncompressedFile . defaultLogContainerSize ( )" l &&
+  Nat.eqb (length (filter (mentions "defaultLogContainerSize") l)) 1 &&
+  before "const uint32_t logContainerSize = m_uncompressedFile . defaultLogContainerSize ( )"
+         "logContainer . uncompressedFile . resize ( logContainerSize )" l &&
+  before "logContainer . uncompressedFile . resize ( logContainerSize )"
+         "m_uncompressedFile . read ( reinterpret_cast < char * > ( logContainer . uncompressedFile . data ( ) ) , logContainerSize )" l &&
   has "LogContainer logContainer" l &&
   before "logContainer . write ( m_compressedFile )" "m_uncompressedFile . dropOldData ( )" l.
 
